@@ -27,7 +27,7 @@ def run(ctx):
         "configuration: client-IP header X-Client-Ip, TLS header X-Tls: true, HSTS max-age with includeSubdomains, each on or off (4 combinations)",
         "scope: when the client supplies exactly one of X-Forwarded-Proto / Forwarded only its pass-through is judged (fabio trusts the proxy in front; the statement is silent); a supplied Forwarded may be extended (by=, httpproto=) and, if sent twice, only the first value is judged; X-Forwarded-Port = port of the requested Host, else the default of the actual connection; Forwarded proto ws/wss counts as http/https; HSTS on the 101 answer of a TLS websocket handshake is not judged; a client-IP header named X-Forwarded-For or X-Real-Ip is not configured",
     ]
-    base.run_prop(ctx, "C08", ctx.pick(16, 1),
+    base.run_prop(ctx, "C08", ctx.pick(8, 1),
                   "one case per finished pipeline run TLC enumerated (quick: the slice selected by the seed; thorough: the full product); non-trivial = at least one forged managed header, a host option or a websocket request",
                   _pred, _corrupt, "xrealip")
 
